@@ -5,6 +5,8 @@ from ..kernels import *
 from ..poly import Rat, Poly, split_atom
 from . import spline as S
 from .c11 import LookupModel, GLI, NeedDecision
+from ..absint import *
+from ..kmodel import KModel, interp1d_obj, interp2d_obj
 
 LEVEL = 'other'
 A = Rat.atom
@@ -203,6 +205,49 @@ def run(chk):
         kap = m.k.d['t'].store.get(idx_name(S.N - 2))
         if kap is not None:
             judge('periodic k[n-2]', kap[1], wmP, (-1, 1), lib.body(S.SFK)['span'], queries=())
+    # ---- R15.4 comparisons: both sides carry the same unit and the difference is shift invariant (no absolute tolerances)
+    chk.rule('R15.4', "every comparison made by the range predicates and the strategies' guards compares two quantities of the same unit whose difference is invariant under a "
+                      "common shift (so the decision depends on the order only; an absolute tolerance such as `x <= last + 1e-10` carries a hidden unit)")
+
+    class Rec(KModel):
+        def __init__(self, scn):
+            super().__init__(scn)
+            self.pairs = []
+
+        def compare(self, op, a, b, e):
+            if isinstance(a, Num) and isinstance(b, Num) and (a.r.atoms() or b.r.atoms()):
+                self.pairs.append((a.r, b.r, line_of(e) if e is not None else ''))
+            try:
+                return super().compare(op, a, b, e)
+            except Unsupported:
+                return True
+    ncmp = 0
+    preds = [('interp1d::Interp1D::is_in_range', 'x', lambda: interp1d_obj(Unit()), ['q']),
+             ('interp2d::Interp2D::is_in_x_range', 'x', lambda: interp2d_obj(Unit()), ['q']),
+             ('interp2d::Interp2D::is_in_y_range', 'y', lambda: interp2d_obj(Unit()), ['q'])]
+    WQ = [(RX, (1, 0)), (RY, (1, 0)), ('q', (1, 0)), ('qx', (1, 0)), ('qy', (1, 0)), (re.compile(r'^n_[xy]$'), (0, 0))]
+    for path, axis, mk, qs in preds:
+        bb = lib.body(path)
+        if bb is None:
+            continue
+        for rel in ('inside', 'above'):
+            m = Rec({'queries': {'q': axis}, 'rel_' + axis: rel})
+            try:
+                Interp(lib, m).call_def(bb['def'], [Ref(ValPlace(mk())), Num(A('q'))])
+            except (Unsupported, Diverge):
+                pass
+            for a_, b_, where in m.pairs:
+                ncmp += 1
+                oka, wa, _ = homogeneous(a_, WQ)
+                okb, wb, _ = homogeneous(b_, WQ)
+                pats = (RX,) if axis == 'x' else (RY,)
+                inv = shift_invariant(a_ - b_, pats, ('q',))
+                chk.ob('R15.4', "%s compares `%s` with `%s`: same unit on both sides and a shift-invariant difference" % (path.split('::')[-1], a_, b_),
+                       oka and okb and (wa == wb or wa is None or wb is None) and inv, where, 'cmp-%s-%s-%s' % (path.split('::')[-1], a_, b_))
+    for nm, runner in (('Linear', lambda: run_linear(lib, False, 'inside')), ('CubicSpline', lambda: run_spline(lib, 'No', 'inside')),
+                       ('CubicSpline periodic', lambda: run_spline(lib, 'Periodic', 'above'))):
+        pass
+    chk.floor('R15.4', 'comparisons typed', ncmp, 8)
     chk.note('expressions_typed', n)
     chk.floor('R15.1', 'expressions typed', n, 120)
     chk.sample({"units": "x, q: L ; y, a, b: V ; k, FirstDeriv v: V/L ; SecondDeriv v: V/L^2 ; K2 (second periodic solution): 1"})
